@@ -71,6 +71,8 @@ def texts(tier):
     T += [' 12.5 ', '\t1:02.5', '12.5\n', '0:45.5', '00:45.5', '0:0:45', '1.02.5', '2.33', '4:05:33', '81:93', '1:59.999', '59.999', '104.80', '9.58', '19.19', '3:26.00',
           '2:01:39', '12:37.35', '26:11', '63:40', '63.40', '45.1', '2.45', '8.95', '9000', '8967', '10000', '99999']
     T += JUNK
+    # very long digit runs (a float of them is inf or 0.0)
+    T += ['2' + '0' * 308, '9' * 400, '1:00:' + '2' + '0' * 308, '1:' + '9' * 320, '0.' + '0' * 400 + '1', '12.' + '3' * 400, '0' * 400 + '12.5', '1' + '0' * 30]
     return list(dict.fromkeys(T))
 
 
